@@ -165,10 +165,11 @@ type c09Book struct {
 	maxN      int             // largest prescribed set so far (bounds every recents window of this history)
 	rawAfter    map[uint64]int  // number of distinct validators in force after height h was accepted
 	consPresent map[uint64]bool // consensus state of height h still stored just before the current op
+	accepted    map[uint64]*bsctypes.Header // the header accepted for each height on the head's ancestry (harness record)
 }
 
 func newC09Book() *c09Book {
-	return &c09Book{sealedBy: map[uint64]common.Address{}, rawAfter: map[uint64]int{}, consPresent: map[uint64]bool{}}
+	return &c09Book{sealedBy: map[uint64]common.Address{}, rawAfter: map[uint64]int{}, consPresent: map[uint64]bool{}, accepted: map[uint64]*bsctypes.Header{}}
 }
 
 // two clients ("bsc", "bscb") may follow the same generated chain in one process; an op addresses one of them
@@ -414,6 +415,66 @@ func (w *c09World) apply(r *Rec, op string) string {
 			return "dry-err"
 		}
 		return "dry-ok"
+	case "upgrade": // governance repairs the client: UpgradeClientProposal.ValidateBasic + HandleUpgradeClient -> keeper.UpgradeClient
+		chainID, epoch, tp, bt := c09U(f[1]), c09U(f[2]), c09U(f[3]), c09U(f[4])
+		n := int(c09U(f[5]))
+		var vals [][]byte
+		for i := 0; i < n; i++ {
+			vals = append(vals, unhx(f[6+i]))
+		}
+		h := c09ParseHdr(f[6+n:])
+		cs := &bsctypes.ClientState{Header: *h, ChainId: chainID, Epoch: epoch, BlockInteval: 3, Validators: vals,
+			ContractAddress: []byte("0x00"), TrustingPeriod: tp}
+		cons := &bsctypes.ConsensusState{Timestamp: h.Time, Height: h.Height, Root: h.Root}
+		cctx, write := w.ctx.WithBlockTime(time.Unix(int64(bt), 0)).CacheContext()
+		var err error
+		pan, _ := safely(func() {
+			var p *clienttypes.UpgradeClientProposal
+			if p, err = clienttypes.NewUpgradeClientProposal("repair", "reorganisation", w.chain, cs, cons); err != nil {
+				return
+			}
+			if err = p.ValidateBasic(); err != nil {
+				return
+			}
+			_, err = k.HandleUpgradeClient(cctx, p)
+		})
+		if pan {
+			r.Count("upgrade.panic")
+			return "panic"
+		}
+		if err != nil {
+			r.Count("upgrade.rejected")
+			return "err"
+		}
+		write()
+		r.Count("upgrade.accepted")
+		u := h.Height.RevisionHeight
+		same := false
+		if old, ok := w.accepted[u]; ok && c09Hash(old) == c09Hash(h) && bytes.Equal(old.Extra, h.Extra) {
+			same = true
+		}
+		if same {
+			r.Count("upgrade.accepted.same-branch")
+			for kh := range w.accepted {
+				if kh > u {
+					delete(w.accepted, kh)
+				}
+			}
+		} else {
+			r.Count("upgrade.accepted.other-branch")
+			w.accepted = map[uint64]*bsctypes.Header{}
+		}
+		w.accepted[u] = h
+		w.created, w.chainID, w.epoch, w.head, w.startH = true, chainID, epoch, h, u
+		w.sealedBy = map[uint64]common.Address{}
+		if a, ok := c09Recover(h, chainID); ok {
+			w.sealedBy[u] = a
+		}
+		w.lastEpoch, _ = bsctypes.ParseValidators(h.Extra)
+		w.presVals, w.prevVals, w.switchAt, w.tp, w.maxN = vals, nil, 0, tp, len(c09Distinct(vals))
+		w.rawAfter = map[uint64]int{u: len(c09Distinct(vals))}
+		w.ancestry(r)
+		return w.dump(w.ctx, h)
 	case "reset":
 		w.reset()
 		w.hist = []string{op}
@@ -472,6 +533,7 @@ func (w *c09World) apply(r *Rec, op string) string {
 		w.lastEpoch, _ = bsctypes.ParseValidators(h.Extra)
 		w.presVals, w.prevVals, w.tp, w.maxN = vals, nil, tp, len(c09Distinct(vals))
 		w.rawAfter[h.Height.RevisionHeight] = len(c09Distinct(vals))
+		w.accepted[h.Height.RevisionHeight] = h
 		return w.dump(w.ctx, h)
 	case "update":
 		bt := c09U(f[1])
@@ -507,7 +569,17 @@ func (w *c09World) apply(r *Rec, op string) string {
 		}
 		write()
 		r.Count("update.accepted")
+		if w.consPresent[h.Height.RevisionHeight] {
+			r.Count("update.accepted.over-occupied-height") // a consensus state (of an abandoned branch) was already stored there
+		}
 		w.oracle(r, before, h)
+		for kh := range w.accepted {
+			if kh >= h.Height.RevisionHeight {
+				delete(w.accepted, kh)
+			}
+		}
+		w.accepted[h.Height.RevisionHeight] = h
+		w.ancestry(r)
 		return w.dump(w.ctx, h)
 	}
 	r.t.Fatalf("bad op %q", op)
@@ -647,6 +719,26 @@ func (w *c09World) oracle(r *Rec, before *bsctypes.ClientState, h *bsctypes.Head
 	w.sealedBy[num] = signer
 	w.rawAfter[num] = len(c09Distinct(after.Validators))
 	w.head = h
+}
+
+// ancestry: every height on the head's ancestry (the harness' own record of the header accepted for it) that still has
+// a consensus state must hold exactly that header's time and root (expiry may have pruned it, nothing may have
+// replaced or kept another branch's state).
+func (w *c09World) ancestry(r *Rec) {
+	for kh, ah := range w.accepted {
+		st, ok := w.app.XIBCKeeper.ClientKeeper.GetClientConsensusState(w.ctx, w.chain, ah.Height)
+		if !ok {
+			continue
+		}
+		if st.GetTimestamp() != ah.Time || !bytes.Equal(st.GetRoot(), ah.Root) {
+			where := "ancestor"
+			if w.head != nil && kh == w.head.Height.RevisionHeight {
+				where = "head"
+			}
+			w.find(r, "C09:stored-root-differs-from-accepted-header:"+where, "the consensus state of a height on the head's ancestry is not <time, root> of the header accepted for it",
+				fmt.Sprintf("%d:%s", st.GetTimestamp(), hx(st.GetRoot())), fmt.Sprintf("%d:%s", ah.Time, hx(ah.Root)))
+		}
+	}
 }
 
 // invalidBecause evaluates the property's acceptance conditions on the harness' own bookkeeping only: ""
